@@ -412,7 +412,15 @@ type Work struct {
 	// Raw: the channel is used without a Client: CloseAfter requests are sent,
 	// nothing is received, and Close has to deal with all of them.
 	Raw bool `json:"raw,omitempty"`
+	// Opts: how the channel is given its HTTP client: "" an explicit Client,
+	// "nil" nil options, "empty" options whose Client is unset - the last two
+	// are documented to use http.DefaultClient (whose transport the harness replaces).
+	Opts string `json:"opts,omitempty"`
 }
+
+type rtFunc func(*http.Request) (*http.Response, error)
+
+func (f rtFunc) RoundTrip(r *http.Request) (*http.Response, error) { return f(r) }
 
 type spyBody struct {
 	io.Reader
@@ -533,7 +541,17 @@ func runWork(t *testing.T, w Work) (v engine.Verdict) {
 			// the same workload over jhttp.Channel against a Bridge
 			b := jhttp.NewBridge(workMux(), nil)
 			fh := &fakeHTTP{b: b, release: make(chan struct{}), hold: w.Hold, failAt: w.TransportFailAt}
-			hch := jhttp.NewChannel("http://bridge/", &jhttp.ChannelOptions{Client: fh})
+			copts := &jhttp.ChannelOptions{Client: fh}
+			if w.Opts != "" {
+				saved := http.DefaultClient.Transport
+				http.DefaultClient.Transport = rtFunc(fh.Do)
+				defer func() { http.DefaultClient.Transport = saved }()
+				copts = nil
+				if w.Opts == "empty" {
+					copts = &jhttp.ChannelOptions{}
+				}
+			}
+			hch := jhttp.NewChannel("http://bridge/", copts)
 			var cli *jrpc2.Client
 			if !w.Raw {
 				cli = jrpc2.NewClient(hch, nil)
@@ -632,6 +650,7 @@ func genWork(t *testing.T) func(*rapid.T) Work {
 		if w.Hold && rapid.IntRange(0, 3).Draw(t, "raw") == 0 {
 			w.Raw = true
 		}
+		w.Opts = rapid.SampledFrom([]string{"", "", "nil", "empty"}).Draw(t, "opts")
 		if n > 0 && rapid.IntRange(0, 3).Draw(t, "transportfail") == 0 {
 			w.TransportFailAt = rapid.IntRange(1, n).Draw(t, "failat")
 			w.Fail500 = false
